@@ -299,7 +299,7 @@ def from_Bar(bar, width=40, tuning=None, collapse=True):
             raise FingerError("No playable fingering found for: %s" % notes)
 
     # Padding at the end
-    l = len(result[i]) + 1
+    l = len(result[0]) + 1
     for i in range(len(result)):
         result[i] += (width - l) * "-" + "|"
     result.reverse()
